@@ -256,6 +256,7 @@ def fullrun_part(ctx, rng):
         cfg.simulation.cloud_model = Simulation.PressureMapCloud(month=int(rng.integers(1, 13)))
         cfg.detector.initial_position.latitude, cfg.detector.initial_position.longitude = 0.6, 2.4
         cfg.detector.radio.enable = False
+        cfg.simulation.spectrum.log_nu_energy = 12.0  # long decay lengths: more decays above 20 km
         asked = []
         o_call = CloudTopHeight.__dict__["__call__"]
 
@@ -279,6 +280,7 @@ def fullrun_part(ctx, rng):
         inr = (alt >= 0) & (alt <= 20)
         la, lo = np.asarray(sim["init_lat"], dtype=np.float64)[inr], np.asarray(sim["init_lon"], dtype=np.float64)[inr]
         ctx.count("site-fullrun", int(inr.sum()))
+        ctx.obs["fullrun_out_of_range_decays"] = ctx.obs.get("fullrun_out_of_range_decays", 0) + int((~inr).sum())
         got = np.array([(a, b) for a, b, _ in asked]).reshape(-1, 2)
         # dask may evaluate the partitions in any order: compare the (lat, long) pairs as a multiset
         srt = lambda a: a[np.lexsort((a[:, 1], a[:, 0]))] if a.size else a
